@@ -285,6 +285,8 @@ pub fn c10_sched(thorough: bool) -> Vec<Unit> {
         ("create-topic‖delete-topic‖get", vec![vec![CreateTopic(T0)], vec![DeleteTopic(T0)], vec![GetTopic(T0), GetTopic(T0)]], true, false),
         ("create-sub‖delete-sub‖get", vec![vec![CreateSub(S0, T0)], vec![DeleteSub(S0)], vec![GetSub(S0), GetSub(S0)]], true, true),
         ("delete-sub‖delete-sub‖create-sub", vec![vec![DeleteSub(S0)], vec![DeleteSub(S0)], vec![CreateSub(S0, T0)]], true, true),
+        ("delete-topic‖delete-topic", vec![vec![DeleteTopic(T0)], vec![DeleteTopic(T0)]], true, false),
+        ("delete-topic‖delete-topic‖create-topic", vec![vec![DeleteTopic(T0)], vec![DeleteTopic(T0)], vec![CreateTopic(T0)]], true, true),
         ("delete-sub;create-sub‖pull", vec![vec![DeleteSub(S0), CreateSub(S0, T0), GetSub(S0)], vec![PullNow(S0, 1), PullNow(S0, 1)]], true, true),
         ("create-sub‖delete-topic", vec![vec![CreateSub(S0, T0)], vec![DeleteTopic(T0)], vec![GetSub(S0)]], true, false),
         ("delete-topic;create-topic‖publish", vec![vec![DeleteTopic(T0), CreateTopic(T0)], vec![Publish(T0, 1), Publish(T0, 1)], vec![GetTopic(T0)]], true, true),
@@ -346,6 +348,18 @@ fn c11_scenario_x(name: &'static str, progs: Vec<Vec<COp>>, abandon: bool) -> Sc
         tryv!(l.close_streams(&cx).await);
         let calls = l.hist.calls();
         let w = tryv!(world_check(&cx, name, &key).await);
+        // "after DeleteTopic returns, its subscriptions report their topic as deleted": every GetSubscription invoked after a
+        // successful DeleteTopic returned (no topic is created again in these programs before it) must say so, also while
+        // other requests that looked the topic up earlier are still in flight
+        for g in calls.iter().filter(|c| matches!(c.op, COp::GetSub(_))) {
+            if let R::View(Ok(v)) = &g.result {
+                let after_delete = calls.iter().any(|d| matches!(d.op, COp::DeleteTopic(_)) && d.result.is_ok() && d.ret_step.map(|r| r <= g.invoke_step).unwrap_or(false));
+                let any_create = calls.iter().any(|c| matches!(c.op, COp::CreateTopic(_)));
+                if after_delete && !any_create && v.topic != "_deleted_topic_" {
+                    return ScenarioOut::viol(format!("{}/topic-reported-after-delete-topic-returned", name), format!("GetSubscription({}) invoked after DeleteTopic had returned OK reports topic {:?}: {}", v.name, v.topic, key));
+                }
+            }
+        }
         // after DeleteTopic returned, its subscriptions still exist, report the topic as deleted and keep serving what they hold
         let topic_deleted = calls.iter().any(|c| matches!(c.op, COp::DeleteTopic(_)) && c.result.is_ok());
         let topic_recreated = calls.iter().any(|c| matches!(c.op, COp::CreateTopic(_)) && c.result.is_ok());
@@ -383,6 +397,7 @@ pub fn c11_sched(thorough: bool) -> Vec<Unit> {
         ("delete-sub‖create-sub-same-name", vec![vec![DeleteSub(S0)], vec![CreateSub(S0, T0), CreateSub(S0, T0)], vec![Publish(T0, 1)]]),
         ("delete-topic;create-topic‖create-sub", vec![vec![DeleteTopic(T0), CreateTopic(T0)], vec![CreateSub(S2, T0)], vec![Publish(T0, 1)]]),
         ("delete-sub‖delete-topic", vec![vec![DeleteSub(S0)], vec![DeleteTopic(T0)], vec![ListTopicSubs(T0)]]),
+        ("delete-topic;get-sub‖publish", vec![vec![DeleteTopic(T0), GetSub(S0), GetSub(S1)], vec![Publish(T0, 1)], vec![Publish(T0, 2)]]),
     ];
     let mut v: Vec<Unit> = progs.into_iter().map(|(n, p)| explore_unit(format!("sched/{}", n), format!("{:?}; afterwards ListTopicSubscriptions of every live topic = the existing subscriptions reporting it, a probe publish reaches exactly those, deleted things are gone, subscriptions of a deleted topic keep serving", p), Bounds::new(d), ExecCfg::default(), c11_scenario(n, p))).collect();
     let ab: Vec<(&'static str, Vec<Vec<COp>>)> = vec![
